@@ -237,8 +237,10 @@ def run(ctx):
         for m, (own, first, other) in sorted(T.items()):
             b = ctx.saw(sa.fn(name=m, self_adt=ADT))
             acc = [c for c in b.calls if c.args and describe_operand(b, c.args[0]) == own]
-            r.check(len(acc) >= 1 and acc[0].name == first and len(acc[0].args) > 1 and describe_operand(b, acc[0].args[1]) == "id", "%s/own-entry" % m, acc[0].loc() if acc else where(b),
-                    "%s works on %s.%s(id)" % (m, own.split(".")[-1], first), "%s accesses %s" % (m, [(c.name, [describe_operand(b, a)[:30] for a in c.args]) for c in acc][:3]))
+            # (the kind of access, not the method that spells it: `entry` / `get_mut` + `insert` / .. are all ways of writing the item's own entry)
+            KIND = {"get": ("get", "get_key_value", "iter", "contains_key"), "entry": ("entry", "get_mut", "insert", "get_or_insert_with"), "remove": ("remove", "remove_entry"), "get_mut": ("get_mut", "entry")}
+            r.check(len(acc) >= 1 and any(c.name in KIND[first] for c in acc) and all(len(c.args) < 2 or describe_operand(b, c.args[1]) == "id" for c in acc), "%s/own-entry" % m, acc[0].loc() if acc else where(b),
+                    "%s works on %s[id] (%s)" % (m, own.split(".")[-1], acc[0].name if acc else "?"), "%s accesses %s" % (m, [(c.name, [describe_operand(b, a)[:30] for a in c.args]) for c in acc][:3]))
             # every further access of that collection uses the same id
             r.check(all(describe_operand(b, c.args[1]) == "id" for c in acc if len(c.args) > 1), "%s/own-id-everywhere" % m, where(b), "every access of %s is keyed by the method's id" % own.split(".")[-1],
                     "%s reaches an entry of another item: %s" % (m, [describe_operand(b, c.args[1])[:30] for c in acc if len(c.args) > 1]))
